@@ -208,6 +208,23 @@ fn ref_to_lib(kit: &Kit, s: &Setting, vals: &[&V], partition: &[usize], meta_lay
                 other => return Err(format!("value {g:?} read where {v:?} was written ({other:?})")),
             }
         }
+        // the same file from a source that delivers 1 or 7 bytes per read (a pipe, a socket)
+        for chunk in [1usize, 7] {
+            let src = crate::c01::ChunkReader { data: &file, pos: 0, chunk };
+            let reader = Reader::new(src).map_err(|e| format!("Reader::new on a source delivering {chunk} bytes per read: {e}"))?;
+            let mut n = 0usize;
+            for (i, item) in reader.enumerate() {
+                let g = item.map_err(|e| format!("read error after {i} values on a source delivering {chunk} bytes per read: {e}"))?;
+                match (vals.get(i), from_lib(&g, &kit.s, &kit.env)) {
+                    (Some(v), Ok(x)) if veq(&x, v) => {}
+                    other => return Err(format!("source delivering {chunk} bytes per read: value {i} is {g:?} ({other:?})")),
+                }
+                n += 1;
+            }
+            if n != vals.len() {
+                return Err(format!("source delivering {chunk} bytes per read: {n} values read, {} written", vals.len()));
+            }
+        }
         Ok(())
     });
     match r {
